@@ -29,7 +29,7 @@ LOCK = "this.destructionLock"
 
 
 def run(ctx):
-    ctx.rule("C16.guard", "A3: ElementsToBeDestroyed / callBeforeDeleteFunction only under destructionLock", floor=10)
+    ctx.rule("C16.guard", "A3: ElementsToBeDestroyed / callBeforeDeleteFunction only under destructionLock", floor=6)
     ctx.step(check_guarded_fields, ctx, "C16.guard", DD)
     ctx.step(unlocked, ctx)
     ctx.step(select, ctx, DD)
@@ -214,7 +214,7 @@ def unlocked(ctx):
 
 def select(ctx, cls):
     rid = "C16.select"
-    ctx.rule(rid, "only use_count()==1 elements are kept alive and removed; callbacks precede the clear", floor=6)
+    ctx.rule(rid, "only use_count()==1 elements are kept alive and removed; callbacks precede the clear", floor=3)
     fs = destroy_fn(ctx, cls, 0)
     if not fs:
         ctx.broken("%s::destroyObjects() not instantiated" % cls)
